@@ -39,6 +39,11 @@ func c13RoundDiv(w, c, swf int) int {
 		c13Unsafe = true
 		stat("float:share-outside-domain(w*c>=2^52)")
 	}
+	return c13RoundDivQ(w, c, swf)
+}
+
+func c13RoundDivQ(w, c, swf int) int {
+	n := new(big.Int).Mul(big.NewInt(int64(w)), big.NewInt(int64(c)))
 	n.Lsh(n, 1)
 	n.Add(n, big.NewInt(int64(swf)))
 	n.Div(n, big.NewInt(2*int64(swf)))
@@ -347,15 +352,30 @@ func c13BigWeights(rng *rand.Rand, search int) []c13Item {
 		return w, c1, c2
 	}
 	w, c1, c2 := pick()
+	// constructive search: w * c1 / (c1 + c2) at distance 1/(2 swf) of a half-integer: w = c1^-1 * (swf +- 1)/2 mod swf
 	for k := 0; k < search; k++ {
-		w2, d1, d2 := pick()
+		_, d1, d2 := pick()
+		swf := d1 + d2
+		if swf%2 == 0 {
+			d2++
+			swf++
+		}
+		inv := new(big.Int).ModInverse(big.NewInt(int64(d1)), big.NewInt(int64(swf)))
+		if inv == nil {
+			continue
+		}
+		half := (swf + 1 - 2*rng.Intn(2)) / 2
+		w2 := int(new(big.Int).Mod(new(big.Int).Mul(inv, big.NewInt(int64(half))), big.NewInt(int64(swf))).Int64())
+		lo := d1
+		if d2 < lo {
+			lo = d2
+		}
+		if w2 < 1<<24 || w2 >= lo {
+			continue
+		}
 		differs := false
 		for _, c := range []int{d1, d2} {
-			fl := int(c13FloatShare(w2, c, []int{d1, d2}))
-			save := c13Unsafe
-			ex := c13RoundDiv(w2, c, d1+d2)
-			c13Unsafe = save
-			if fl != ex {
+			if int(c13FloatShare(w2, c, []int{d1, d2})) != c13RoundDivQ(w2, c, swf) {
 				differs = true
 			}
 		}
